@@ -21,6 +21,7 @@ type KnownFinding struct {
 	What       string `json:"what"`
 	Commit     string `json:"commit,omitempty"`
 	Replay     string `json:"replay,omitempty"`
+	Signature  string `json:"signature,omitempty"` // bounded checks: signature of the complete set of failing cases the finding covers
 }
 
 type Evidence struct {
@@ -168,8 +169,13 @@ func cmdCheck(args []string) {
 			short[k.Obligation] = true
 		}
 	}
+	// bounded stand-ins for assumed leaf contracts run beside the solver race
+	bspecs := loadBounded(verif, pid)
+	bch := make(chan []BoundedResult, 1)
+	go func() { bch <- runBounded(bspecs, repo, verif, work) }()
 	results := SolveAll(obls, SolveOpts{Solvers: solverList, TimeoutS: timeout, Workdir: work, Parallel: 8, ShortFor: short})
 	results = append(results, structural...)
+	bounded := <-bch
 
 	baselinePath := filepath.Join(verif, "baseline", pid+".json")
 	var baseline []string
@@ -231,6 +237,30 @@ func cmdCheck(args []string) {
 		}
 		violations = append(violations, fmt.Sprintf("VIOLATION property=%s replay=%s%s", pid, path, suffix))
 		fmt.Printf("  failed: %s (%s, %s) %s\n", r.Name, r.Status, r.Solver, r.Text)
+	}
+	// bounded conformance results: a failing one is a violation with a concrete failing input on the real code
+	var boundedEv []map[string]interface{}
+	boundedEvals := 0
+	for _, br := range bounded {
+		boundedEv = append(boundedEv, map[string]interface{}{"test": br.Spec.Test, "label": "bounded", "stands_in_for": br.Spec.StandsFor, "bound": br.Spec.Bound,
+			"result": br.Status, "seconds": br.Seconds, "failed_clauses": br.Fails, "evaluations": br.Evals})
+		boundedEvals += br.Evals
+		switch br.Status {
+		case "pass":
+		case "fail":
+			name := "bounded:" + br.Spec.Test
+			if kf := matchKnown(known, pid, name); kf != nil && (kf.Signature == "" || kf.Signature == br.Sig) {
+				knownLines = append(knownLines, fmt.Sprintf("KNOWN-FINDING: property=%s %s [%s]", pid, kf.What, name))
+				continue
+			} else if kf != nil {
+				br.Fails = append(br.Fails, fmt.Sprintf("the set of failing cases (%s) differs from the one recorded for the known finding (%s): a different violation", br.Sig, kf.Signature))
+			}
+			path := writeBoundedReplay(work, pid, repo, verif, br)
+			violations = append(violations, fmt.Sprintf("VIOLATION property=%s replay=%s", pid, path))
+			fmt.Printf("  failed: bounded:%s %v\n", br.Spec.Test, br.Fails)
+		default:
+			engineErrs = append(engineErrs, "bounded check "+br.Spec.Test+" did not run: "+lastLines(br.Output, 8))
+		}
 	}
 	// obligations that existed in the baseline but are gone
 	for _, n := range baseline {
@@ -305,7 +335,13 @@ func cmdCheck(args []string) {
 	sort.Strings(trusted)
 	sort.Strings(as)
 	as = append(as, staticAssumptions...)
-	ev := Evidence{PropertyID: pid, Tier: *tier, Seed: seed, Level: "proof", WallS: time.Since(t0).Seconds(), Violations: len(violations), Assumptions: as,
+	level := "proof"
+	if exp, ok := boundedCore[pid]; ok {
+		level = "other"
+		defer func() {}()
+		_ = exp
+	}
+	ev := Evidence{PropertyID: pid, Tier: *tier, Seed: seed, Level: level, WallS: time.Since(t0).Seconds(), Violations: len(violations), Assumptions: as,
 		Coverage: map[string]interface{}{
 			"obligations":              total,
 			"discharged":               discharged,
@@ -320,9 +356,14 @@ func cmdCheck(args []string) {
 			"dead_paths":               deadPaths,
 			"new_unreachable_paths":    newDead,
 			"undecided_clauses":        undecidedClauses[pid],
+			"bounded_checks":           boundedEv,
+			"bounded_evaluations":      boundedEvals,
 			"contract_files":           eng.db.Files,
 			"slow_obligations_left_to_thorough_tier": skippedSlow,
 		}}
+	if exp, ok := boundedCore[pid]; ok {
+		ev.Coverage["explanation"] = exp
+	}
 	os.MkdirAll(filepath.Join(outDir, "evidence"), 0755)
 	b, _ := json.MarshalIndent(ev, "", " ")
 	os.WriteFile(filepath.Join(outDir, "evidence", pid+".json"), b, 0644)
@@ -360,6 +401,12 @@ var staticAssumptions = []string{
 }
 
 var undecidedClauses = map[string][]string{}
+
+// properties whose deciding function is outside the verified subset: the contract of that function is stated and used by the
+// verified callers, the function itself is only checked up to a stated bound.  Their evidence level is "other", never "proof".
+var boundedCore = map[string]string{
+	"C09": "Contract-based, with a BOUNDED stand-in for the deciding function: GetPegNetRateAverages (closures, defer, in-place slice shifting) is outside the subset the VC generator handles, so its contract 'the result is a function of the recorded rates and the height only' is assumed by the deductively verified callers (obligations/discharged count those) and checked only up to the bounds listed under bounded_checks by replaying the sync routine's exact call sequence with and without restarts on the real code. Nothing here is counted as proved for GetPegNetRateAverages itself.",
+}
 
 func loadKnown(path string) []KnownFinding {
 	var k []KnownFinding
